@@ -47,6 +47,12 @@ pub struct Case {
     pub settle_each: bool,
     /// client role only: Topic Alias Maximum advertised in CONNECT (None = absent = 0)
     pub advertised: Option<u16>,
+    /// every publish handler stays pending until all packets have been sent (then they are
+    /// completed oldest first)
+    pub hold: bool,
+    /// server role only: Topic Alias Maximum the handshake service puts into CONNACK instead of
+    /// the configured one (Some(0) = aliases switched off for this connection)
+    pub hs_max: Option<u16>,
 }
 
 pub fn alphabet(full: bool) -> Vec<Op> {
@@ -116,6 +122,7 @@ pub struct Outc {
     pub resolved_by_alias: usize,
     pub rebinds: usize,
     pub errors: usize,
+    pub held: usize,
 }
 
 pub async fn run_case(case: &Case) -> Outc {
@@ -131,11 +138,16 @@ pub async fn run_case(case: &Case) -> Outc {
         }
     }
     let apps = [App::new("c17-a"), App::new("c17-b")];
+    if case.hold {
+        for app in &apps {
+            app.pub_default.borrow_mut().gated = true;
+        }
+    }
     let mut conns: Vec<Conn> = Vec::new();
     if case.role.is_server() {
         let srv = Server::new(&cfg).await;
         for app in &apps {
-            let mut c = srv.connect(app.clone(), HsPlan::default(), Ver::V5);
+            let mut c = srv.connect(app.clone(), HsPlan { topic_alias_max: case.hs_max, ..HsPlan::default() }, Ver::V5);
             c.peer.send(&cfg.peer_connect());
             c.settle().await;
             conns.push(c);
@@ -145,9 +157,9 @@ pub async fn run_case(case: &Case) -> Outc {
             conns.push(conn::start(&cfg, app.clone()).await);
         }
     }
-    let max = if case.role.is_server() { MAX_ALIAS } else { case.advertised.unwrap_or(0) };
+    let max = if case.role.is_server() { case.hs_max.unwrap_or(MAX_ALIAS) } else { case.advertised.unwrap_or(0) };
     let mut models = [RefAlias::default(), RefAlias::default()];
-    let mut o = Outc { violations: vec![], log: vec![], sig: 0, delivered: 0, resolved_by_alias: 0, rebinds: 0, errors: 0 };
+    let mut o = Outc { violations: vec![], log: vec![], sig: 0, delivered: 0, resolved_by_alias: 0, rebinds: 0, errors: 0, held: 0 };
     for (ci, op) in &case.ops {
         let ci = *ci as usize;
         if models[ci].dead {
@@ -172,6 +184,25 @@ pub async fn run_case(case: &Case) -> Outc {
     }
     for c in conns.iter_mut() {
         c.settle().await;
+    }
+    if case.hold {
+        // complete the pending handlers oldest first
+        for _ in 0..4 * case.ops.len() + 4 {
+            let mut opened = false;
+            for app in &apps {
+                let first = app.pending_gates().into_iter().next();
+                if let Some(k) = first {
+                    opened |= app.open_gate(k, crate::app::Outcome::Ok);
+                }
+            }
+            if !opened {
+                break;
+            }
+            o.held += 1;
+            for c in conns.iter_mut() {
+                c.settle().await;
+            }
+        }
     }
     // ------------------------------------------------------------------ compare
     let what = format!("{case:?}");
@@ -290,7 +321,14 @@ pub fn enumerate(max_len: usize, full: bool) -> Vec<Case> {
                 if !settle_each && s.len() == 1 {
                     continue;
                 }
-                v.push(Case { role, router, ops: s.clone(), settle_each, advertised });
+                v.push(Case { role, router, ops: s.clone(), settle_each, advertised, hold: false, hs_max: None });
+            }
+            if s.len() == 2 {
+                v.push(Case { role, router, ops: s.clone(), settle_each: false, advertised, hold: true, hs_max: None });
+                if role.is_server() && !router {
+                    v.push(Case { role, router, ops: s.clone(), settle_each: false, advertised, hold: false, hs_max: Some(0) });
+                    v.push(Case { role, router, ops: s.clone(), settle_each: true, advertised, hold: true, hs_max: Some(1) });
+                }
             }
         }
     }
@@ -315,11 +353,12 @@ fn random_case(rng: &mut Rng, len: usize) -> Case {
             (rng.below(2) as u8, op)
         })
         .collect();
-    Case { role, router, ops, settle_each: rng.below(2) == 0, advertised }
+    let hs_max = if role.is_server() { *rng.pick(&[None, None, Some(0), Some(1), Some(2), Some(MAX_ALIAS + 1)]) } else { None };
+    Case { role, router, ops, settle_each: rng.below(2) == 0, advertised, hold: rng.below(3) == 0, hs_max }
 }
 
 fn case_json(c: &Case) -> serde_json::Value {
-    json!({"role": c.role.name(), "router": c.router, "settle_each": c.settle_each, "advertised": c.advertised,
+    json!({"role": c.role.name(), "router": c.router, "settle_each": c.settle_each, "advertised": c.advertised, "hold": c.hold, "hs_max": c.hs_max,
            "ops": c.ops.iter().map(|(ci, op)| match op { Op::Bind(a, t) => json!([ci, "bind", a, t]), Op::Use(a) => json!([ci, "use", a, 0]), Op::Plain(t) => json!([ci, "plain", 0, t]) }).collect::<Vec<_>>()})
 }
 
@@ -335,7 +374,7 @@ fn parse_case(v: &serde_json::Value) -> Option<Case> {
             Some((ci, match o[1].as_str()? { "bind" => Op::Bind(a, t), "use" => Op::Use(a), _ => Op::Plain(t) }))
         })
         .collect::<Option<Vec<_>>>()?;
-    Some(Case { role, router: v["router"].as_bool()?, ops, settle_each: v["settle_each"].as_bool()?, advertised: v["advertised"].as_u64().map(|x| x as u16) })
+    Some(Case { role, router: v["router"].as_bool()?, ops, settle_each: v["settle_each"].as_bool()?, advertised: v["advertised"].as_u64().map(|x| x as u16), hold: v["hold"].as_bool().unwrap_or(false), hs_max: v["hs_max"].as_u64().map(|x| x as u16) })
 }
 
 pub fn run(opts: &Opts) -> i32 {
@@ -372,6 +411,7 @@ pub fn run(opts: &Opts) -> i32 {
                 rep.count("publishes_resolved_through_an_alias", o.resolved_by_alias as u64);
                 rep.count("rebinds_to_a_different_topic", o.rebinds as u64);
                 rep.count("connections_ended_by_invalid_alias", o.errors as u64);
+                rep.count("handlers_completed_only_after_later_publishes_arrived", o.held as u64);
                 if i % 1499 == 0 {
                     rep.sample(6, || json!({"case": case_json(case), "log": o.log}));
                 }
